@@ -9,6 +9,9 @@ name: its path is rewritten back in the fact model (body path, closures nested i
 runs.  Exported functions are never matched this way - renaming them is an API change the rules should report."""
 
 
+import re
+
+
 def _owner(path):
     return path.rsplit('::', 1)[0]
 
@@ -26,6 +29,27 @@ def compute(raw, sigs):
         cs = [b for b in new if _owner(b['path']) == _owner(p) and b['kind'] == kind and
               (b.get('impl_self') or '') == impl_self and tuple(b.get('inputs') or ()) == tuple(inputs) and
               (b.get('output') or '') == output]
+        if len(cs) == 1:
+            cand[p] = cs[0]['path']
+    # second pass: a private free function moved into an `impl` block of its module as an associated function (or
+    # back) keeps its name and signature; only the owner gains / loses one path segment
+    taken = set(cand.values())
+    for p in missing:
+        if p in cand:
+            continue
+        kind, impl_self, inputs, output, _exp = sigs[p]
+        name = p.rsplit('::', 1)[-1]
+        cs = []
+        for b in new:
+            if b['path'] in taken or b['path'].rsplit('::', 1)[-1] != name:
+                continue
+            o_old, o_new = _owner(p), _owner(b['path'])
+            o_new_plain = re.sub(r'::<[^>]*>$', '', o_new)
+            o_old_plain = re.sub(r'::<[^>]*>$', '', o_old)
+            nested = o_new_plain.startswith(o_old + '::') and o_new_plain.count('::') == o_old.count('::') + 1 or \
+                o_old_plain.startswith(o_new + '::') and o_old_plain.count('::') == o_new.count('::') + 1
+            if nested and tuple(b.get('inputs') or ()) == tuple(inputs) and (b.get('output') or '') == output:
+                cs.append(b)
         if len(cs) == 1:
             cand[p] = cs[0]['path']
     # one-to-one only
